@@ -12,6 +12,7 @@ import Iodata.Lemmas.Fmt.Sdf
 import Iodata.Lemmas.Fmt.Pdb
 import Iodata.Lemmas.Fmt.PdbConect
 import Iodata.Lemmas.Fmt.Fchk
+import Iodata.Lemmas.Fmt.Cube
 import Iodata.Gen.Layouts
 
 namespace Iodata.Props.C03
@@ -128,5 +129,15 @@ theorem fchk_load_spec (L : Fchk.Layout) (hS : Fchk.LayoutOK (Fchk.specG L)) (R 
 theorem fchk_dense_entry (α : Type) (d : α) (n : Nat) (t : List α) (i j : Nat) (hi : i < n) (hj : j < n) :
     ((Fchk.dense d n t).getD i []).getD j d = t.getD (Fchk.triIdx i j) d := by
   simp [Fchk.dense, List.getD, hi, hj]
+
+/-! ## Cube (free format: whitespace-separated header numbers, values in row-major order x, y, z) -/
+
+/-- Cube: a header line `n x y z` is read as these four numbers, an atom line `Z q x y z` as that atom, whatever the
+widths (fields are blank-separated); the k-th value of the data block, wherever the line breaks fall, is element k of the
+row-major grid. -/
+theorem cube_load_spec (L : Cube.Layout) (hL : Cube.LayoutOK L) (m : Cube.Obj) (h : Cube.Dom L m) :
+    Cube.load L (Cube.dump L m) = .ok (Cube.norm L m) ∧
+    (∀ n v, Cube.readGrid L.hD (Cube.gridLine L n v) = .ok (n, v)) :=
+  ⟨Cube.load_dump L hL m h, Cube.readGrid_gridLine L⟩
 
 end Iodata.Props.C03
